@@ -1,4 +1,5 @@
 import FP.Proofs.WalkResidual
+import FP.Proofs.Round
 /-!
 # FP.Proofs.WalkCoreEnc — what a satisfying assignment of `encodeWalks` says about one layer
 
@@ -38,7 +39,18 @@ theorem edge_col (hsat : Sat a (encodeWalks s c ub)) {i : Nat} (hi : i < c.k) {e
   have := hsat.1 { v := edgeVar e i, lb := 0, ub := some (ub e), isInt := true }
     (List.mem_append_left _ (List.mem_append_left _
       (List.mem_flatMap.2 ⟨i, List.mem_range.2 hi, List.mem_map.2 ⟨e, he, rfl⟩⟩)))
-  exact nat_of_int_nonneg _ this.1 (this.2.2 rfl)
+  exact nat_of_int_nonneg_round _ this.1 (this.2.2 rfl)
+
+/-- `round()` leaves a value that is a natural number alone -/
+theorem multOf_of_eq (a : Asg) (i : Nat) (e : Edge) (n : Nat) (h : a (edgeVar e i) = (n : Rat)) :
+    multOf a i e = n := by
+  unfold multOf; rw [h, pyRoundCount_natCast]
+
+/-- a solver value strictly within `1/2` of `n` is read as `n` -/
+theorem multOf_of_near (a : Asg) (i : Nat) (e : Edge) (n : Nat)
+    (h1 : (n : Rat) - 1/2 < a (edgeVar e i)) (h2 : a (edgeVar e i) < (n : Rat) + 1/2) :
+    multOf a i e = n := by
+  unfold multOf; exact pyRoundCount_near _ n h1 h2
 
 /-- the distance value of a node as a natural number -/
 def distOf (a : Asg) (i : Nat) (v : Node) : Nat := (a (distVar v i)).floor.toNat
